@@ -82,6 +82,18 @@ def compute(prog, rep):
         L = lab_loop[0]
         i = ("idx", f"{L.lineno}:{L.col_offset}", "range", (("const", 1), ("bin", "+", nmodes, ("const", 1))))
         nz = ("call", G("numpy.nonzero"), (("cmp", "==", labeled, i),), ())
+        CCs = [s for s in cfg.all_stmts() if isinstance(s, ast.Assign) and isinstance(s.targets[0], ast.Attribute) and s.targets[0].attr == "cell_center_coordinates"]
+        for st in ast.walk(L):
+            if isinstance(st, ast.ListComp):
+                holder = next((s for s in cfg.all_stmts() if any(n_ is st for n_ in ast.walk(s)) and not isinstance(s, (ast.For, ast.If, ast.While))), None)
+                if holder is None:
+                    continue
+                t = b.term(st, holder)
+                if t[0] == "comp" and t[4] == ("call", G("enumerate"), (nz,), ()):
+                    d = ("idx", t[3], "enumerate")
+                    a = t[2]
+                    okc = a[0] == "sub" and a[2] == ("sub", nz, d) and a[1][0] == "sub" and a[1][2] == d and len(CCs) == 1 and b.term(CCs[0].value, CCs[0]) == a[1][1]
+                    why = f"the coordinate of dimension d must be cell_center_coordinates[d][indices_d] with d and indices_d from the SAME enumeration of np.nonzero(labeled == i); found {show(a)[:160]}"
         inner = [s for s in ast.walk(L) if isinstance(s, ast.For) and s is not L]
         for il in inner:
             it = b.term(il.iter, il)
@@ -103,34 +115,62 @@ def compute(prog, rep):
                 why = f"dimensions must be enumerated from np.nonzero(labeled_array == i); found {show(it)[:120]}"
     rep.check(okc, "C15.coords", f"{q}:lookup", fn.where(), "coords_d = cell_center_coordinates[d][nonzero(labeled == i)[d]]", why)
     # ---- shape
+    from vstat.terms import guarded_alts
+    bg = builder(prog, fn, inline=False, guarded=True)
     cs = [s for s in cfg.all_stmts() if isinstance(s, ast.Assign) and isinstance(s.targets[0], ast.Attribute) and s.targets[0].attr == "coordinates"]
     two = ("cmp", "==", nd, ("const", 2))
+    LST = ("list", ())
+    one = ("cmp", "==", ("call", G("len"), (LST,), ()), ("const", 1))
+    first = ("sub", LST, ("const", 0))
     kinds = {}
+    from vstat.guards import PathConditions
+    pcs_g = PathConditions(fn, bg)
     for st in cs:
-        t = b.term(st.value, st)
-        pc = pcs.of(st)
-        if two in pc:
-            inner = t[1] if t[0] == "attr" and t[2] == "T" else t
-            ok = t[0] == "attr" and t[2] == "T" and inner[0] == "call" and inner[1] == G("numpy.array") and inner[2] and inner[2][0][0] == "call" \
-                and inner[2][0][1] == ("func", "virocon.utils.sort_points_to_form_continuous_line") and dict(inner[2][0][3]).get("search_for_optimal_start") == ("const", True) \
-                and len(inner[2][0][2]) == 1 and inner[2][0][2][0][0] == "star"
-            kinds["2d"] = (st, ok, t)
-        elif ("not", two) in pc:
-            ok = t[0] == "attr" and t[2] == "T" and t[1][0] == "call" and t[1][1] == G("numpy.array")
-            kinds["nd"] = (st, ok, t)
-        else:
-            kinds["multi"] = (st, True, t)
-    ok = set(kinds) == {"2d", "nd", "multi"} and all(v[1] for v in kinds.values())
-    rep.check(ok, "C15.shape", f"{q}:single", fn.where(), "single component: (N, n_dim) array; 2-D through the line sorter (optimal start), transposed",
-              f"one component must be returned as np.array(...).T - in 2-D np.array(sort_points_to_form_continuous_line(*coordinates, search_for_optimal_start=True)).T; found {[(k, show(v[2])[:100]) for k, v in kinds.items() if not v[1]]}")
-    single = []
-    for s in cfg.all_stmts():
-        if isinstance(s, ast.If):
-            tt = b.term(s.test, s)
-            if tt[0] == "cmp" and tt[1] == "==" and tt[3] == ("const", 1) and tt[2][0] == "call" and tt[2][1] == G("len") and tt[2][2] and tt[2][2][0] == ("list", ()):
-                single.append(s)
-    rep.check(bool(single), "C15.shape", f"{q}:one-vs-many", fn.where(), "len(coordinates) == 1 selects the single-array form",
+        base_pc = set(pcs_g.of(st))
+        # flags set from the same tests count as the tests themselves
+        st_one = one in base_pc or any(_flag_of(l, one, bg, fn) is True for l in base_pc)
+        st_not_one = ("not", one) in base_pc or any(_flag_of(l, one, bg, fn) is False for l in base_pc)
+        for lits, t in guarded_alts(bg.term(st.value, st)):
+            if (st_one and ("not", one) in lits) or (st_not_one and one in lits):
+                continue  # this alternative contradicts the statement's own path condition
+            pc = base_pc | set(lits)
+            is_one = st_one or one in pc
+            not_one = st_not_one or ("not", one) in pc
+            if not_one:
+                kinds.setdefault("multi", []).append((st, t == LST, t))
+            elif two in pc:
+                inner = t[1] if t[0] == "attr" and t[2] == "T" else t
+                ok = t[0] == "attr" and t[2] == "T" and inner[0] == "call" and inner[1] == G("numpy.array") and inner[2] and inner[2][0][0] == "call" \
+                    and inner[2][0][1] == ("func", "virocon.utils.sort_points_to_form_continuous_line") and dict(inner[2][0][3]).get("search_for_optimal_start") == ("const", True) \
+                    and inner[2][0][2] == (("star", first),)
+                kinds.setdefault("2d", []).append((st, ok and is_one, t))
+            elif ("not", two) in pc:
+                ok = t == ("attr", ("call", G("numpy.array"), (first,), ()), "T")
+                kinds.setdefault("nd", []).append((st, ok and is_one, t))
+            else:
+                kinds.setdefault("?", []).append((st, False, t))
+    ok = set(kinds) == {"2d", "nd", "multi"} and all(v[1] for vs in kinds.values() for v in vs)
+    rep.check(ok, "C15.shape", f"{q}:single", fn.where(), "single component: (N, n_dim) array; 2-D through the line sorter (optimal start), transposed; several: the list",
+              f"one component must be returned as np.array(...).T - in 2-D np.array(sort_points_to_form_continuous_line(*coordinates[0], search_for_optimal_start=True)).T - and several components as the list of coordinate sets; found {[(k, show(v[2])[:90]) for k, vs in kinds.items() for v in vs if not v[1] or k == '?']}")
+    rep.check("multi" in kinds and ("2d" in kinds or "nd" in kinds), "C15.shape", f"{q}:one-vs-many", fn.where(), "len(coordinates) == 1 selects the single-array form",
               "a single component is recognised by len(coordinates) == 1; several components stay a list with one coordinate set per region")
+
+
+def _flag_of(lit, test, bg, fn):
+    """A boolean flag literal whose guarded definitions are const True under `test` and const False otherwise -> polarity of test."""
+    neg = lit[0] == "not"
+    core = lit[1] if neg else lit
+    if core[0] == "gphi":
+        m = {k: v for k, v in core[1]}
+        if len(m) == 2 and set(m.values()) == {("const", True), ("const", False)}:
+            for k, v in m.items():
+                if test in k:
+                    val = v[1]
+                    return (not val) if neg else val
+                if ("not", test) in k:
+                    val = not v[1]
+                    return (not val) if neg else val
+    return None
 
 
 def sorter(prog, rep):
